@@ -27,6 +27,8 @@ Definition wire_extra (f : tfield) (v : tval) : Prop :=
       | GwText t => (g = 1 /\ exists b, ipv4_aton t = Ok b) \/ (g = 2 /\ exists b, ipv6_aton t = Ok b)
       | GwName n => g = 3 /\ Valid n
       end
+  | FAplRest, VApl items =>      (* struct "!HBB": family, prefix; `assert l < 128` for the address *)
+      Forall (fun it : aplitem => let '(f, _, a, p) := it in 0 <= f <= 65535 /\ 0 <= p <= 255) items
   | _, _ => True
   end.
 
@@ -144,6 +146,37 @@ Proof.
   eapply as_name_valid; eauto.
 Qed.
 
+(* ---------- APL items ---------- *)
+Lemma apl_ctor_range f n a p it : apl_ctor f n a p = Ok it -> let '(f', _, _, p') := it in 0 <= f' <= 65535 /\ 0 <= p' <= 255.
+Proof.
+  unfold apl_ctor. destruct ((f <? 0) || (f >? 65535)) eqn:Ef; [discriminate|].
+  destruct (f =? 1).
+  - destruct (ipv4_aton a); cbn [bind]; try discriminate. destruct ((p <? 0) || (p >? 32)) eqn:Ep; [discriminate|].
+    intros H; inversion H; subst. lia.
+  - destruct (f =? 2).
+    + destruct (ipv6_aton a); cbn [bind]; try discriminate. destruct ((p <? 0) || (p >? 128)) eqn:Ep; [discriminate|].
+      intros H; inversion H; subst. lia.
+    + destruct (utf8_encode a) as [e| |]; cbn [bind]; try discriminate. destruct (zlen e >? 127); [discriminate|].
+      destruct (unhexlify e); cbn [bind]; try discriminate. destruct ((p <? 0) || (p >? 255)) eqn:Ep; [discriminate|].
+      intros H; inversion H; subst. lia.
+Qed.
+
+Lemma apl_items_range toks : forall items, map_res apl_item_of_token toks = Ok items ->
+  Forall (fun it : aplitem => let '(f, _, a, p) := it in 0 <= f <= 65535 /\ 0 <= p <= 255) items.
+Proof.
+  induction toks as [|t toks IH]; intros items H; cbn [map_res] in H; [inversion H; constructor|].
+  destruct (apl_item_of_token t) as [it| |] eqn:E; cbn [bind] in H; try discriminate.
+  destruct (map_res apl_item_of_token toks) as [r| |]; cbn [bind] in H; try discriminate. inversion H; subst.
+  constructor; [|apply IH; reflexivity]. unfold apl_item_of_token in E.
+  destruct (unescape t) as [u| |]; cbn [bind] in E; try discriminate.
+  destruct (tvalue u) as [|c r0]; [discriminate|].
+  destruct (split_once 58 (if c =? 33 then r0 else c :: r0)) as [[fam rest]|]; [|discriminate].
+  destruct (py_int 10 fam) as [fv|]; [|discriminate].
+  destruct (split_once 47 rest) as [[ad pfx]|]; [|discriminate].
+  destruct (py_int 10 pfx) as [pv|]; [|discriminate].
+  pose proof (apl_ctor_range _ _ _ _ _ E) as G. destruct it as [[[f' n'] a'] p']. exact G.
+Qed.
+
 (* ---------- one field ---------- *)
 Theorem parse_field_wire c f st raw st' v :
   parse_field c f st = Ok (raw, st') -> ctor_field f raw = Ok v -> wire_ok f v.
@@ -213,6 +246,10 @@ Proof.
       cbn [ctor_field] in Hc. apply orb_false_iff in E012 as [E01 E2]. apply orb_false_iff in E01 as [E0 E1].
       rewrite E0, E1, E2, E3 in Hc. inversion Hc; subst. cbn [wire_extra].
       split; [lia|]. split; [lia|]. split; [lia|]. eapply get_name_valid; eauto.
+  - (* FAplRest *)
+    destruct (get_remaining st 0) as [[toks s1]| |]; cbn [bind fst snd] in H; try discriminate.
+    destruct (map_res apl_item_of_token toks) as [items| |] eqn:E; cbn [bind fst snd] in H; try discriminate.
+    inversion H; subst. cbn [ctor_field] in Hc. inversion Hc; subst. cbn [wire_extra]. eapply apl_items_range; eauto.
 Qed.
 
 (* ---------- the whole record ---------- *)
